@@ -639,6 +639,9 @@ def refuses(rec):
         return False
     except OSError:
         return True
+    except Exception:
+        # the check cannot be called on its own (it uses state only the constructor sets up): the constructor's verdict decides
+        return None
 
 
 def run_startup(case):
